@@ -4,6 +4,7 @@ import json
 import os
 import re
 import struct
+import shutil
 import subprocess
 import tempfile
 import time
@@ -188,12 +189,9 @@ def extract_model(out, obl):
     return model
 
 
-def _limit_memory():
-    """8 GB of address space per solver process (62 GB, no swap, up to 16 solver processes): a solver that needs more dies
-    and its answer counts as `unknown`"""
-    import resource
-    lim = 8 * 1024 ** 3
-    resource.setrlimit(resource.RLIMIT_AS, (lim, lim))
+# 8 GB of address space per solver process (62 GB, no swap, up to 16 solver processes): a solver that needs more dies and
+# its answer counts as `unknown`. (A wrapper command, not preexec_fn: forking the multi-GB driver for every query is slow.)
+_MEMLIMIT = ["prlimit", "--as=%d" % (8 * 1024 ** 3)] if shutil.which("prlimit") else []
 
 
 def solve_one(obl, timeout_s, want_model=True, extra="", second_opinion=False):
@@ -227,7 +225,7 @@ def _solve_with(obl, timeout_s, want_model=True, extra="", second_opinion=False,
         if want_model and syms:
             f.write("(get-value (%s))\n" % " ".join(syms))
         f.close()
-        p = subprocess.Popen(cmd + [f.name], stdout=subprocess.PIPE, stderr=subprocess.STDOUT, text=True, preexec_fn=_limit_memory)
+        p = subprocess.Popen(_MEMLIMIT + cmd + [f.name], stdout=subprocess.PIPE, stderr=subprocess.STDOUT, text=True)
         procs.append([name, p, f.name, None])
     answers, log = {}, []
     verdict, model, who = "unknown", {}, None
